@@ -551,9 +551,9 @@ func runC09(r *core.Run) {
 		}
 	}
 	// enumerated call histories x every sink-call index x modes
-	hdepth := 2
+	hdepth := 3
 	if thorough(r) {
-		hdepth = 3
+		hdepth = 4
 	}
 	var hists []string
 	var hrec func(pref []string, alpha []string, kind string)
